@@ -557,19 +557,25 @@ func (gen *Generator) GenerateLet(name string, args []Sexp) error {
 		rstatements = append(rstatements, bindings[2*i+1])
 	}
 
-	gen.AddInstruction(AddScopeInstr{Name: "runtime " + name})
-	gen.scopes++
-
 	// the right-hand sides of the bindings are not in tail position
 	oldtail := gen.Tail
 	gen.Tail = false
+	nscopes := 0
 	if name == "letseq" {
 		for i, rs := range rstatements {
 			err := gen.Generate(rs)
 			if err != nil {
 				return err
 			}
+			gen.AddInstruction(AddScopeInstr{Name: "runtime " + name})
+			gen.scopes++
+			nscopes++
 			gen.AddInstruction(PopStackPutEnvInstr{lstatements[i]})
+		}
+		if nscopes == 0 {
+			gen.AddInstruction(AddScopeInstr{Name: "runtime " + name})
+			gen.scopes++
+			nscopes++
 		}
 	} else if name == "let" {
 		for _, rs := range rstatements {
@@ -578,6 +584,9 @@ func (gen *Generator) GenerateLet(name string, args []Sexp) error {
 				return err
 			}
 		}
+		gen.AddInstruction(AddScopeInstr{Name: "runtime " + name})
+		gen.scopes++
+		nscopes++
 		for i := len(lstatements) - 1; i >= 0; i-- {
 			gen.AddInstruction(PopStackPutEnvInstr{lstatements[i]})
 		}
@@ -587,8 +596,10 @@ func (gen *Generator) GenerateLet(name string, args []Sexp) error {
 	if err != nil {
 		return err
 	}
-	gen.AddInstruction(RemoveScopeInstr{})
-	gen.scopes--
+	for i := 0; i < nscopes; i++ {
+		gen.AddInstruction(RemoveScopeInstr{})
+		gen.scopes--
+	}
 
 	return nil
 }
